@@ -85,6 +85,7 @@ PROPS["C05"] = dict(
     modules=["common", "hdrs", "c03", "c02", "c05"],
     contracts=["asgi.Response.__call__", "wsgi.Response.__call__", "asgi.SmallResponse.__call__", "wsgi.SmallResponse.__call__",
                "asgi.StreamingResponse.__call__", "Headers.__init__", "MutableHeaders.__setitem__",
+               "MutableHeaders.__init__[pairs]", "MutableHeaders.__init__[mapping]",
                "wsgi.handle_all", "wsgi.handle_single_range", "wsgi.handle_several_ranges", "wsgi.FileResponse.__call__",
                "asgi.fake_sendfile", "asgi.zerocopy_sendfile", "asgi.handle_all", "asgi.handle_single_range",
                "asgi.handle_several_ranges", "asgi.FileResponse.__call__", "list_headers[body]"],
@@ -103,7 +104,9 @@ PROPS["C05"] = dict(
     level_note="Trusted: the server's send/start_response do not raise (A-server); list_headers emits the header map's items and "
                "one set-cookie line per cookie (the call-site summary A-list-headers abstracts the contract list_headers[body], "
                "which verifies the real body: exactly the mapping's items, then one set-cookie line per cookie, in order); header map values stay clean through "
-               "MutableHeaders.__setitem__ (proved, C13) but constructor-supplied header maps are an input; "
+               "MutableHeaders.__setitem__ (proved, C13) and are clean from construction on (MutableHeaders.__init__ rejects CR / LF / NUL "
+               "in constructor-supplied names and values: proved for the pair-list and the mapping branch; ValueError only when an "
+               "input holds one); "
                "StatusStringMapping (A-status-table: validated exhaustively over 100..999 on every run); await erased, "
                "one task (the watcher only flips the volatile flag); the SSE / Stream render_stream producers (threads, queues) "
                "are covered by the bounded layer only; Latin-1 encodability of generated header values is checked bounded.",
@@ -167,7 +170,7 @@ PROPS["C08"] = dict(
 PROPS["C13"] = dict(
     modules=["common", "hdrs", "c03", "c02", "c05", "c13"],
     contracts=["MutableHeaders.__setitem__", "MutableHeaders.__delitem__", "MutableHeaders.append", "Headers.__getitem__",
-               "Headers.__init__", "cookie.table", "Cookie._quote", "Cookie.__str__",
+               "Headers.__init__", "MutableHeaders.__init__[pairs]", "cookie.table", "Cookie._quote", "Cookie.__str__",
                "wsgi.RedirectResponse.__init__", "asgi.RedirectResponse.__init__", "list_headers[body]"],
     no_refute=["cookie.table"],
     refute={"quick": [2], "thorough": [1, 2, 3]},
@@ -182,14 +185,17 @@ PROPS["C13"] = dict(
                "legal) or the quoted homomorphic image, in both cases free of CR, LF, NUL, ';' and ','; Cookie.__str__ (all 216 "
                "attribute combinations) is free of CR/LF/NUL, starts with quote(name)=quote(value), that pair contains no ';' "
                "and is followed by '; ' - so name/value cannot introduce an attribute or a header. Redirect: the target is "
-               "escaped and stored through __setitem__, which can then never reject it.",
+               "escaped and stored through __setitem__, which can then never reject it. MutableHeaders.__init__ establishes CLEAN "
+               "for constructor-supplied headers (pair list, folded duplicates included).",
     level_note="Trusted: str.lower introduces no CR/LF/NUL (A-lower); collections.abc mixins mutate only via __setitem__/"
                "__delitem__ (A-abc-1); re fullmatch (A-re-2); str.translate is the character-wise homomorphism of the table "
                "(A-translate); urllib.parse.quote emits only unreserved/safe/%HH (A-quote-1); strftime output (A-time-1); "
                "cookie attributes path/domain/samesite are required clean (not sources of C13); list_headers' body "
                "is verified by the contract list_headers[body] (exactly the mapping's items, then one set-cookie line per cookie "
-               "carrying str(cookie), nothing else); Headers.__init__ does not "
-               "filter constructor-supplied maps (an input of the property).",
+               "carrying str(cookie), nothing else); the read-only Headers.__init__ does not filter what it is given, but "
+               "MutableHeaders.__init__ (the mapping every response owns) does: CLEAN holds from construction on (proved: the "
+               "constructor raises ValueError only when a given name or value holds CR / LF / NUL, and a redirect's extra headers "
+               "are the only thing that can make RedirectResponse raise).",
     technique="deductive verification: class invariant of the header mapping, exhaustive finite table lemma, string-level contracts for cookie quoting, SMT (z3/cvc5)",
     explanation="",
 )
@@ -277,6 +283,7 @@ PROPS["C10"] = dict(
 PROPS["C20"] = dict(
     modules=["common", "hdrs", "c03", "c02", "c05", "c20"],
     contracts=["wsgi.ensure_next", "wsgi.NextResponse.from_app", "Headers.__init__", "Headers.__init__[mapping]",
+               "MutableHeaders.__init__[mapping]",
                "asgi.CachedStream.push", "asgi.CachedStream.push_eof", "asgi.CachedStream.__anext__",
                "asgi.NextResponse.from_app.send", "asgi.NextResponse.render_stream", "asgi.StreamingResponse.__call__",
                "wsgi.middleware.wsgi", "wsgi.decorator.view", "asgi.decorator.view"],
